@@ -109,6 +109,32 @@ def main():
             except Exception as ex:  # noqa
                 d, n = "E:" + type(ex).__name__, 0
             out.append({"what": f"lang{li}/workflow/{k}/{json.dumps(wf)}", "digest": d, "n": n})
+    # a fixed language whose signatures print several bounds / constraints that differ only in the variable they are about
+    try:
+        from transforge.type import TypeOperator, TypeSchema
+        from transforge.expr import Operator
+        from transforge.lang import Language
+        V = TypeOperator("V"); O = TypeOperator("O", supertype=V); Rr = TypeOperator("R", params=2)
+        sigs = {
+            "p1": lambda x, y: V ** Rr(x, y) [x << [O], y << [O]],
+            "p2": lambda x, y: x ** y ** V [O << x, O << y],
+            "p3": lambda x, y, z: Rr(x, y) ** z ** V [x <= V, y <= V, z <= V],
+            "p4": lambda x, y: x ** y ** Rr(x, y) [x << [O, V], y << [O, V]],
+            "p5": lambda x, y, z: x ** y ** z [x << [O], y << [O], z << [V], x <= V, y <= V],
+        }
+        scope = dict(V=V, O=O, R=Rr)
+        scope.update({k: Operator(type=f, name=k) for k, f in sigs.items()})
+        plang = Language(scope=scope, namespace="https://example.com/#")
+        if unrelated_first:
+            for o in list(plang.operators.values()):
+                str(o.type)
+            junk2 = [object() for _ in range(random.Random(seed).randint(1, 3000))]
+        g = TransformationGraph(plang, with_canonical_types=True)
+        g.add_vocabulary()
+        d, n = digest(g)
+    except Exception as ex:  # noqa
+        d, n = "E:" + type(ex).__name__, 0
+    out.append({"what": "printlang/vocabulary", "digest": d, "n": n})
     print(json.dumps(out))
 
 
